@@ -47,6 +47,15 @@ class TuplePrior(ModelObject):
     def __delattr__(self, item):
         super().__delattr__(item)
 
+    def __getstate__(self):
+        # the frozen flag belongs to the owning model, which re-applies it (AbstractModel.__setstate__)
+        return {key: value for key, value in self.__dict__.items() if key != "_is_frozen"}
+
+    def __setstate__(self, state):
+        # restoring stored state (pickle, copy, database) is not a modification
+        self.__dict__["_is_frozen"] = False
+        self.__dict__.update(state)
+
     @property
     @cast_collection(PriorNameValue)
     def prior_tuples(self):
